@@ -355,7 +355,49 @@ def r_exitcode(e, R):
     ok = bool(sent) and bool(fins) and isinstance(fins[0].args[2], ast.Tuple) and norm(fins[0].args[2].elts[0]) == norm(sent[0].value)
     R.check(ok, "R-EXITCODE", "_launch: the sentinel is the parent's read end and has a closing finaliser", la.short, "self.sentinel = parent_r; Finalize(self, os.close, (parent_r,))",
             "the sentinel descriptor is never closed (one leaked fd per worker) or is not the monitored pipe end", e.loc(la, la.node))
-    R.floor("R-EXITCODE", 6)
+    # polarity of the clean-up in _launch's finally, of poll and of wait (scenario obligations)
+    from . import scenario as SC
+    lg = e.cfg(la)
+    if sent and isinstance(sent[0].value, ast.Name):
+        sv = sent[0].value.id
+        finn = lambda n: any(norm(c.func).endswith("Finalize") and len(c.args) >= 3 and norm(c.args[1]) == "os.close" for c in calls_in(n))
+        fin_nodes = [n for n in lg.nodes if finn(n)]
+        for fnode in fin_nodes[:1]:
+            tests = [t for t in lg.nodes if t.kind == "test" and none_test(t.ast) and isinstance(none_test(t.ast)[0], ast.Name) and none_test(t.ast)[0].id == sv]
+            okp = bool(tests) and all(not lg.on_branch(fnode, t, "F" if none_test(t.ast)[1] == "T" else "T") for t in tests) and \
+                any(lg.on_branch(fn_, t, none_test(t.ast)[1]) for t in tests for fn_ in fin_nodes)
+            R.check(okp, "R-EXITCODE", "_launch: the closing finaliser is installed exactly when the sentinel pipe was created", la.short, f"if {sv} is not None: Finalize(...)",
+                    "the finaliser is installed for a pipe that does not exist (os.close(None) at collection) and not for the one that does (one leaked fd per worker)",
+                    e.loc(la, fnode.ast))
+    closes = [n for n in lg.nodes for c in calls_in(n) if norm(c.func) == "os.close" and c.args and isinstance(c.args[0], ast.Name)]
+    for cn in closes:
+        v = [c.args[0].id for c in calls_in(cn) if norm(c.func) == "os.close"][0]
+        tests = [t for t in lg.nodes if t.kind == "test" and none_test(t.ast) and isinstance(none_test(t.ast)[0], ast.Name) and none_test(t.ast)[0].id == v]
+        if not tests:
+            continue
+        R.check(any(lg.on_branch(cn, t, none_test(t.ast)[1]) for t in tests), "R-EXITCODE", f"_launch: `os.close({v})` runs exactly when `{v}` is a descriptor", la.short,
+                f"if {v} is not None: os.close({v})", "the child's pipe ends stay open in the parent (two leaked fds per worker; the sentinel never reports the exit "
+                "because the parent itself holds the write end) or os.close(None) raises", e.loc(la, cn.ast))
+    rc = lambda x: isinstance(x, ast.Attribute) and x.attr == "returncode" and isinstance(x.value, ast.Name) and x.value.id == poll.params[0]
+    wpn = lambda n: any(norm(c.func) == "os.waitpid" for c in calls_in(n))
+    SC.must(e, R, "R-EXITCODE", poll, "no exit code is recorded yet", [(rc, "none")], wpn, "asks the OS (waitpid)", "poll() never notices that the worker exited: is_alive() stays True, join() hangs")
+    SC.never(e, R, "R-EXITCODE", poll, "the exit code is already recorded", [(rc, "some")], wpn, "a second waitpid", "waitpid on a reaped pid: ChildProcessError or, worse, another process's status")
+    wt = pc.methods.get("wait")
+    if wt is not None:
+        rcw = lambda x: isinstance(x, ast.Attribute) and x.attr == "returncode" and isinstance(x.value, ast.Name) and x.value.id == wt.params[0]
+        pollc = lambda n: any(poll.qualname in e.callees_of(c) or (isinstance(c.func, ast.Attribute) and c.func.attr == "poll" and isinstance(c.func.value, ast.Name)
+                                                                     and c.func.value.id == wt.params[0]) for c in calls_in(n))
+        tmo = wt.params[1] if len(wt.params) > 1 else None
+        SC.must(e, R, "R-EXITCODE", wt, "no exit code is recorded and no timeout is given", [(rcw, "none"), (SC.name(tmo), "none")], pollc, "polls (blocking)",
+                "join() returns at once while the worker is still running")
+    # an exited-but-unwaitable child (ECHILD) does not raise out of poll
+    wp_nodes = [n for n in g.nodes if wpn(n)]
+    for n in wp_nodes:
+        hs = [m for m, l in n.succ if l == "exc" and m.kind == "except"]
+        R.check(any(h.ast.type is None or norm(h.ast.type) in ("OSError", "ChildProcessError", "Exception", "BaseException") for h in hs), "R-EXITCODE",
+                "poll: a failing waitpid (ECHILD: reaped elsewhere) is tolerated", poll.short, "except OSError", "poll()/is_alive()/join() raise for a worker whose status was "
+                "collected by someone else (e.g. a SIGCHLD handler)", e.loc(poll, n.ast))
+    R.floor("R-EXITCODE", 11)
 
 
 # ---------------------------------------------------------------------------
